@@ -168,6 +168,30 @@ def ArgOutcome.failed : ArgOutcome → Bool
   | .failedDot | .failedMissing | .failedAll _ => true
   | _ => false
 
+def stemOf (name : Bytes) : Bytes := name.take (name.length - trashinfoExt.length)
+
+/-- The resolved-layer core of `Janitor.trash_file_in`: persist the info file under a free name,
+    move the entry to `files/<same name>`, and on a failed move remove the info file again.
+    `srcOf` yields the canonical location of the entry (or the error `RealFs.move` /
+    the kernel reports for it) in the state reached after the info file was written. -/
+def putCore (infoC filesC : CPath) (base content : Bytes) (srcOf : FS → Except Errno CPath) (st : PutSt) :
+    Prog (Except Reason Bytes × PutSt) := do
+  let (pr, st) ← persistLoop infoC filesC base content persistFuel 0 false st
+  match pr with
+  | .outOfFuel => pure (.error (.persistError .ELOOP), st)
+  | .failed e => pure (.error (.persistError e), st)
+  | .created name =>
+    let fs ← read
+    let r ← (match srcOf fs with
+             | .error e => pure (.error e)
+             | .ok src => move src (filesC ++ [stemOf name]))
+    match r with
+    | .ok () => pure (.ok name, st)
+    | .error e =>
+      match ← removeFile (infoC ++ [name]) with
+      | .ok () => pure (.error (.moveError e), st)
+      | .error e2 => pure (.error (.cleanupCrash e2), st)
+
 /-- `Janitor.trash_file_in` for one candidate -/
 def trashFileIn (c : PutCfg) (path volume : Bytes) (cand : Candidate) (st : PutSt) :
     Prog (Except Reason Bytes × PutSt) := do
@@ -195,26 +219,10 @@ def trashFileIn (c : PutCfg) (path volume : Bytes) (cand : Candidate) (st : PutS
   let fs ← read
   let loc := originalLocation fs c.cwd path cand
   let content := formatTrashinfoWith loc c.dateStr
-  let base := basename loc
-  let (pr, st) ← persistLoop infoC filesC base content persistFuel 0 false st
-  match pr with
-  | .outOfFuel => pure (.error (.persistError .ELOOP), st)
-  | .failed e => pure (.error (.persistError e), st)
-  | .created name =>
-    let stem := name.take (name.length - trashinfoExt.length)
-    let fs ← read
-    let srcStr := normpath path
-    -- RealFs.move refuses mount points, then shutil.move
-    let r ← (if pIsmount fs c.cwd srcStr then pure (.error .EBUSY)
-             else match resolve fs c.cwd srcStr with
-               | .error e => pure (.error e)
-               | .ok src => move src (filesC ++ [stem]))
-    match r with
-    | .ok () => pure (.ok name, st)
-    | .error e =>
-      match ← removeFile (infoC ++ [name]) with
-      | .ok () => pure (.error (.moveError e), st)
-      | .error e2 => pure (.error (.cleanupCrash e2), st)
+  let srcStr := normpath path
+  -- RealFs.move refuses mount points, then shutil.move resolves the string like the kernel
+  putCore infoC filesC (basename loc) content
+    (fun fs' => if pIsmount fs' c.cwd srcStr then .error .EBUSY else resolve fs' c.cwd srcStr) st
 
 def tryCandidates (c : PutCfg) (path volume : Bytes) :
     List Candidate → List Reason → PutSt → Prog (ArgOutcome × PutSt)
